@@ -92,6 +92,18 @@ def check_diagram(rep, d, others):
         rep.count('then.refuses.sum')
         if got != ('exc', AxiomError):
             rep.fail('C01:then.refuses.sum', 'ill-typed composition with an empty sum gave %r' % (got,), '%s with d = %s' % (what, r))
+    # adding a formal sum (empty or not) of another hom-set is refused; of the same hom-set it is accepted
+    for what, thunk in (('d + Sum([], d.dom @ q, d.cod)', lambda: d + monoidal.Sum([], d.dom @ q, d.cod)),
+                        ('Sum([], d.dom, d.cod @ q) + d', lambda: monoidal.Sum([], d.dom, d.cod @ q) + d),
+                        ('(d + d) + Sum([], q, q)', lambda: (d + d) + monoidal.Sum([], q, q)),
+                        ('Sum([], d.dom, d.cod) + Sum([], q, q)', lambda: monoidal.Sum([], d.dom, d.cod) + monoidal.Sum([], q, q))):
+        got = common.outcome(thunk)
+        rep.count('add.refuses.sum')
+        if got != ('exc', AxiomError):
+            rep.fail('C01:add.refuses.sum', 'ill-typed addition of an empty sum gave %r' % (got,), '%s with d = %s' % (what, r))
+    ok = common.outcome(lambda: (d + monoidal.Sum([], d.dom, d.cod)) == (d + d.sum([], d.dom, d.cod)))
+    if ok[0] != 'ok':
+        rep.fail('C01:add.accepts.sum', 'well-typed addition of the empty sum raised %r' % (ok,), r)
     rep.case(r, nontrivial=n > 0)
 
 
